@@ -403,7 +403,7 @@ Proof. split; vm_compute; reflexivity. Qed.
    crate reinterprets the text, too — Model/De.v has no such branch) *)
 Example token_object_value_route :
   value_of_value ex_cfa ex_fx (VObj [(NUMBER_TOKEN_V, VStr [49; 50])]) = VOk (VNum (NLit [49; 50]))
-  /\ value_of_value ex_cfa ex_fx (VObj [(NUMBER_TOKEN_V, VStr [97])]) = VErr (Message MCustom) 0 0
+  /\ value_of_value ex_cfa ex_fx (VObj [(NUMBER_TOKEN_V, VStr [97])]) = VErr (Message MCustom) 1 1
   /\ value_of_value ex_cfa ex_fx (VObj [(NUMBER_TOKEN_V, VStr [49]); ([120], VNull)]) = VErr (Message MInvalidLength) 0 0
   /\ no_token (VObj [(NUMBER_TOKEN_V, VStr [49; 50])]) = false.
 Proof. repeat split; vm_compute; reflexivity. Qed.
